@@ -42,7 +42,7 @@ def _attr_of(v, ax):
     return want in names, names
 
 
-def check_common_indices(ctx):
+def _check_common_indices_shape_based(ctx):      # superseded by the value-based check_common_indices (kept for reference, not run)
     prog = ctx.prog
     site = "verif.data.Data._get_common_indices"
     m = prog.module("verif.data")
@@ -154,8 +154,143 @@ def check_common_indices(ctx):
         ok = isinstance(rv, list) and len(rv) == 2 and "elem#1($inputs)" in rv[0].key() and "elem#2($inputs)" in rv[1].key()
         ctx.ob("C02.1", site, ok, "index lists are returned in input order", loc=prog.loc(m, r_.node),
                msg="the returned list is not [indices of input 1, indices of input 2, ...]: %s" % [str(x)[:80] for x in rv] if isinstance(rv, list) else str(rv)[:100])
-    ctx.floor("C02.1", 14)
+    pass
     return ev
+
+
+def _kw(at):
+    return {x[0][3:]: x[1] for x in at.args if isinstance(x, tuple) and x and isinstance(x[0], str) and x[0].startswith("kw:")}
+
+
+def check_common_indices(ctx):
+    """Value-based: _get_common_indices is folded once per dimension (axis fixed to Time / Leadtime / Location, the loops over the
+    inputs unrolled twice) and the returned index array of each of the two generic inputs is taken apart:
+
+        result_k[i] = where(values_k == common[i])[0][0]          first position of the i-th common value in input k's OWN values
+        common      = sort(intersection over ALL inputs (and the user's list) of unique(values_j)) without NaN
+
+    Nothing here depends on how local variables are called or on how the loops are written."""
+    prog = ctx.prog
+    site = "verif.data.Data._get_common_indices"
+    m = prog.module("verif.data")
+    f = prog.func(site)
+    loc = prog.loc(m, f)
+    want_attrs = {"Time": {"times"}, "Leadtime": {"leadtimes"}, "Location": {"locations", "id"}}
+    for ax in ("Time", "Leadtime", "Location"):
+        ev = trace.trace(prog, site, env={"axis": form.apply("call:verif.axis." + ax, [])})
+        rets = [o for o in ev.outcomes if o.kind == "return"]
+        ctx.need(rets, "%s(axis=%s): no return" % (site, ax))
+        all_res = []
+        for o_ in rets:
+            val = o_.value
+            res = val if isinstance(val, list) else (list(val.as_atom("pylist").args[0]) if isinstance(val, Rat) and val.as_atom("pylist") is not None else None)
+            ctx.need(res is not None and len(res) == 2, "%s(axis=%s): the result is not one index array per input" % (site, ax))
+            all_res.append(res)
+        commons = []
+        seen_r = set()
+        for k, r in [(k, r) for res in all_res for k, r in enumerate(res, start=1)]:
+            if (k, r.key() if isinstance(r, Rat) else repr(r)) in seen_r:
+                continue
+            seen_r.add((k, r.key() if isinstance(r, Rat) else repr(r)))
+            own = "elem#%d($inputs)" % k
+            other = "elem#%d($inputs)" % (3 - k)
+            chain = []
+            cur = r
+            while isinstance(cur, Rat) and cur.as_atom("setitem") is not None:
+                chain.append(cur.as_atom("setitem"))
+                cur = cur.as_atom("setitem").args[0]
+            ok_fill = len(chain) == 2 and isinstance(cur, Rat) and cur.as_atom("zeros") is not None
+            ctx.ob("C02.1", site, ok_fill, "%s, input #%d: the index array is filled value by value (one entry per common value)" % (ax, k), loc=loc,
+                   msg="for dimension %s the index array of input #%d is %s, not a per-value first-match lookup" % (ax, k, str(r)[:160]))
+            if not ok_fill:
+                continue
+            size = cur.as_atom("zeros").args[0]
+            for stx in chain:
+                idx, v = stx.args[1], stx.args[2]
+                g = v.as_atom("getitem") if isinstance(v, Rat) else None
+                inner = g.args[0].as_atom("getitem") if g is not None and isinstance(g.args[0], Rat) else None
+                wh = inner.args[0].as_atom("where") if inner is not None and isinstance(inner.args[0], Rat) else None
+                eq = wh.args[0].as_atom("cmp_eq") if wh is not None and isinstance(wh.args[0], Rat) else None
+                first = g is not None and isinstance(g.args[1], Rat) and g.args[1].const_value() == 0 and inner is not None \
+                    and isinstance(inner.args[1], Rat) and inner.args[1].const_value() == 0
+                ctx.ob("C02.1", site, eq is not None and first, "%s, input #%d: entry = np.where(values == common value)[0][0] (FIRST match)" % (ax, k), loc=loc,
+                       msg="for dimension %s the entry of input #%d is %s: not the first position where the input's values equal the common value"
+                           % (ax, k, str(v)[:160]))
+                if eq is None:
+                    continue
+                d = eq.args[0]
+                parts = d.atoms(deep=False)
+                commonside = [a for a in parts if "intersect1d" in a.key]
+                valside = [a for a in parts if "intersect1d" not in a.key]
+                ok_split = len(commonside) == 1 and len(valside) == 1 and (commonside[0].func == "getitem" or commonside[0].func.startswith("elem#"))
+                ctx.ob("C02.1", site, ok_split, "%s, input #%d: the comparison is between the input's values and one common value" % (ax, k), loc=loc,
+                       msg="for dimension %s input #%d compares %s" % (ax, k, str(d)[:160]))
+                if not ok_split:
+                    continue
+                vals = Rat.of_atom(valside[0])
+                cg = commonside[0]
+                attrs = {a.func[5:] for a in vals.atoms(deep=True) if a.func.startswith("attr:")}
+                elems = {a.key for a in vals.atoms(deep=True) if a.func.startswith("elem#") and a.args and isinstance(a.args[0], Rat) and a.args[0].key() == "$inputs"}
+                ctx.ob("C02.1", site, attrs == want_attrs[ax], "%s, input #%d: the searched values are the input's %s" % (ax, k, "/".join(sorted(want_attrs[ax]))), loc=loc,
+                       msg="for dimension %s the index lookup of input #%d reads attribute(s) %s, expected %s" % (ax, k, sorted(attrs), sorted(want_attrs[ax])),
+                       sample={"rule": "C02.1", "axis": ax, "input": k, "attrs": sorted(attrs)})
+                ctx.ob("C02.1", site, elems == {own}, "%s, input #%d: the searched values are the input's OWN values" % (ax, k), loc=loc,
+                       msg="for dimension %s the positions for input #%d are looked up in the values of %s" % (ax, k, sorted(elems)))
+                if cg.func.startswith("elem#"):
+                    # `for i, value in enumerate(common)`: the value of iteration k goes to the index of iteration k
+                    ok_pos = isinstance(idx, Rat) and idx.key().endswith(cg.func[4:]) and idx.key().startswith("$")
+                else:
+                    ok_pos = isinstance(cg.args[1], Rat) and isinstance(idx, Rat) and cg.args[1].equals(idx)
+                ctx.ob("C02.1", site, ok_pos, "%s, input #%d: entry i belongs to common value i" % (ax, k), loc=loc,
+                       msg="for dimension %s entry %s of input #%d is the position of common value %s" % (ax, idx, k, cg.args[1] if len(cg.args) > 1 else cg.func))
+                common = cg.args[0]
+                commons.append(common)
+                ok_size = isinstance(size, Rat) and size.equals(form.apply("len", [common]))
+                ctx.ob("C02.1", site, ok_size, "%s, input #%d: one entry per common value" % (ax, k), loc=loc, msg="the index array has %s entries" % size)
+        # the common values: sorted intersection over both generic inputs and the user's list, NaN removed
+        if commons:
+            c0 = commons[0]
+            ctx.ob("C02.1", site, all(c.equals(c0) for c in commons), "%s: one list of common values for all inputs" % ax, loc=loc,
+                   msg="for dimension %s different inputs are matched against different lists of common values" % ax)
+            g = c0.as_atom("getitem")
+            srt = g.args[0].as_atom("sort") if g is not None and isinstance(g.args[0], Rat) else None
+            mask = g.args[1] if g is not None else None
+            want_mask = form.apply("cmp_eq", [form.apply("isnan", [g.args[0]]), Rat.const(0)]) if g is not None and isinstance(g.args[0], Rat) else None
+            ctx.ob("C02.1", site, srt is not None and isinstance(mask, Rat) and want_mask is not None and mask.equals(want_mask),
+                   "%s: common values = sorted intersection with NaN removed" % ax, loc=loc,
+                   msg="for dimension %s the common values are %s (expected np.sort(...)[isnan == 0])" % (ax, str(c0)[:160]))
+            if srt is not None and isinstance(srt.args[0], Rat):
+                inter = srt.args[0]
+                k_ = inter.key()
+                both = all(("unique(sort(%s" % pat) in k_ or ("unique(sort(map(attr:id(" in k_) for pat in ("attr:%s(elem#1($inputs))" % sorted(want_attrs[ax])[-1], "attr:%s(elem#2($inputs))" % sorted(want_attrs[ax])[-1])) \
+                    if ax != "Location" else ("elem#1($inputs)" in k_ and "elem#2($inputs)" in k_)
+                ctx.ob("C02.1", site, "intersect1d" in k_ and both, "%s: the intersection runs over the unique values of every input" % ax, loc=loc,
+                       msg="for dimension %s the intersection is %s" % (ax, k_[:200]))
+                aux_ok = "$aux" in k_ and "cmp_eq($None - $aux,0)" in k_
+                ctx.ob("C02.1", site, aux_ok, "%s: the user's list restricts the result exactly when it is given" % ax, loc=loc,
+                       msg="for dimension %s the user's list (aux) does not take part in the intersection as `if aux is not None`" % ax)
+    ctx.floor("C02.1", 40)
+
+
+def common_values(prog, ax="Time"):
+    """The list of common values of one dimension as a FORM value (taken out of the index lookup of the first generic input),
+    or None."""
+    site = "verif.data.Data._get_common_indices"
+    ev = trace.trace(prog, site, env={"axis": form.apply("call:verif.axis." + ax, [])})
+    rets = [o for o in ev.outcomes if o.kind == "return"]
+    if not rets:
+        return None, ev
+    val = rets[-1].value
+    res = val if isinstance(val, list) else (list(val.as_atom("pylist").args[0]) if isinstance(val, Rat) and val.as_atom("pylist") is not None else None)
+    if not res:
+        return None, ev
+    for eq in q.atoms(res[0], "cmp_eq"):
+        if not isinstance(eq.args[0], Rat):
+            continue
+        for a in eq.args[0].atoms(deep=False):
+            if "intersect1d" in a.key and (a.func == "getitem" or a.func.startswith("elem#")) and isinstance(a.args[0], Rat):
+                return a.args[0], ev
+    return None, ev
 
 
 def _strip_available(d, ev):
